@@ -75,3 +75,22 @@ Lemma refuted_counting_every_trace :
   phase_one_done false 2 [Own 0; Foreign 0] = true /\ all_fired 2 [Own 0; Foreign 0] = false /\
   phase_one_done false 2 [Own 0; Own 0] = true /\ all_fired 2 [Own 0; Own 0] = false.
 Proof. vm_compute. auto. Qed.
+
+(* ---------------- one accumulator per activation ---------------- *)
+Lemma carried_fresh k : forall trs acc, carried true k trs acc = match trs with [] => acc | _ => [] end.
+Proof. induction trs as [|tr r IH]; intros acc; cbn; [reflexivity|]. rewrite IH. destruct r; reflexivity. Qed.
+
+(* every activation's monitor, whatever the activations before it saw, leaves its first phase exactly when every start
+   event has fired in THIS activation *)
+Theorem every_activation_waits_for_its_own_starts k trs tr :
+  phase_one_from (carried true k trs []) k tr = all_fired k tr.
+Proof.
+  rewrite carried_fresh. replace (match trs with [] => [] | _ :: _ => [] end) with (@nil nat) by (destruct trs; reflexivity).
+  exact (phase_one_iff_all_fired k tr).
+Qed.
+
+(* an accumulator that survives the activation: the second activation's monitor is through its first phase before any
+   start event has fired *)
+Lemma refuted_accumulator_survives :
+  phase_one_from (carried false 1 [[Own 0]] []) 1 [] = true /\ all_fired 1 [] = false.
+Proof. vm_compute. auto. Qed.
